@@ -3,6 +3,7 @@ package builder
 import (
 	"errors"
 	"fmt"
+	"sort"
 
 	"github.com/mna/pigeon/ast"
 )
@@ -31,9 +32,16 @@ func PrepareGrammar(grammar *ast.Grammar) (bool, error) {
 
 // ComputeNullables evaluates nullable nodes.
 func ComputeNullables(rules map[string]*ast.Rule) {
-	// Compute which rules in a grammar are nullable
-	for _, rule := range rules {
-		rule.NullableVisit(rules)
+	// Compute which rules in a grammar are nullable. The result for mutually
+	// recursive rules depends on the rule the visit starts from, so visit the
+	// rules in a fixed (sorted) order instead of the map's random order.
+	names := make([]string, 0, len(rules))
+	for name := range rules {
+		names = append(names, name)
+	}
+	sort.Strings(names)
+	for _, name := range names {
+		rules[name].NullableVisit(rules)
 	}
 }
 
